@@ -231,7 +231,9 @@ def check(prop, tier, seed, replay=None):
     for n, part in enumerate(parts):
         cfgs, b = part["mc"][tier]
         mcwd = scratch(f"{prop}_{tier}_mc{n}")
-        mcfs.append((mcwd, pool.submit(model_check, part["family"], cfgs, bounds(b), mcwd, 8)))
+        # the refinement action property triples the cost of a run: always at quick, at thorough only for the families it is about
+        refine = tier == Q or part["family"] in ("C04", "C04b", "C01b", "C08b")
+        mcfs.append((mcwd, pool.submit(model_check, part["family"], cfgs, bounds(b), mcwd, 8, 3000, False, refine)))
         gx_cfgs, gx_depth = part["genx"][tier]
         gb = bounds(dict(part["mc"][tier][1], Depth=gx_depth))
         hx, gxstat = gen_exhaustive(part["family"], gx_cfgs, gb, wd, tail_k=(8 if tier == Q else None), seed=seed)
